@@ -263,11 +263,29 @@ RESUMERS = [r"step::<impl acts::scheduler::ActTask for acts::model::step::Step>:
             r"act::<impl acts::scheduler::ActTask for acts::model::act::Act>::next$"]
 
 
+def resumer_view(m, f):
+    """the scan with a resume helper of the tree inlined: a local function that executes its own receiver (`Task::resume`:
+    is_ready -> set Running -> emit -> exec) called on the loop element is the inline resume sequence spelled as a call"""
+    pa = Prov(m, "alias")
+
+    def is_resume_helper(c):
+        g = m.fns.get(c.q)
+        if g is None or c.q == T.Q_EXEC or len(g.blocks) > 80:
+            return False
+        for x in g.calls():
+            if x.q == T.Q_EXEC and x.args:
+                r = pa.root(g, x.args[0])
+                if r[0] == "param" and r[1] == 1 and not [y for y in r[3] if y != "*"]:
+                    return True
+        return False
+    return m.inlined_view(f, is_resume_helper)
+
+
 def r3(cx):
     m = cx.m
     pa = Prov(m, "alias")
     for pat in RESUMERS:
-        f = m.one(pat)
+        f = resumer_view(m, m.one(pat))
         execs = [c for c in f.calls() if c.q == T.Q_EXEC]
         if len(execs) != 1:
             cx.ob("C01.R3", "resume:%s" % f.short, False, "`%s` resumes sleeping children (found %d exec calls)" % (f.short, len(execs)), f.loc())
